@@ -1125,6 +1125,15 @@ class ExprMixin:
         args, kw, st = self.eval_args(n, st, frame, out)
         return self.call_on(recv, fn.attr, args, kw, n, st, frame, out)
 
+    def _mut_prim(self, kind, name, paths, n, st, frame, out, extra=None):
+        """a raising, state-changing primitive spelled as a pathlib method: the same transfer as the os.* spelling (a removal that was
+        attempted settles the bookkeeping; on the exceptional edge the file system is in a new epoch)"""
+        if kind == "REMOVE" and paths:
+            st = st.set(pending=st.pending - paths[0], tmps=st.tmps - paths[0])
+        st_after = self.emit(kind, name, paths, n, st, frame, extra=extra)
+        self.raise_star(st.set(muts=st_after.muts), out)
+        return st_after
+
     def _pathish(self, r):
         return is_rooted(r) or tag(r) in ("join", "sibling", "parent", "tmpname")
 
@@ -1141,17 +1150,13 @@ class ExprMixin:
                 st = self.emit("PROBE", "os.stat", [recv], n, st, frame)
                 return V(("probe", "stat", recv, st.muts)), st
             if meth == "unlink":
-                self.raise_star(st, out)
-                return V(NONE), self.emit("REMOVE", "Path.unlink", [recv], n, st, frame)
+                return V(NONE), self._mut_prim("REMOVE", "Path.unlink", [recv], n, st, frame, out)
             if meth == "mkdir":
-                self.raise_star(st, out)
-                return V(NONE), self.emit("MKDIR", "Path.mkdir", [recv], n, st, frame)
+                return V(NONE), self._mut_prim("MKDIR", "Path.mkdir", [recv], n, st, frame, out)
             if meth in ("rename", "replace") and args:
-                self.raise_star(st, out)
-                return V(NONE), self.emit("RENAME", "Path." + meth, [recv, args[0]], n, st, frame)
+                return V(NONE), self._mut_prim("RENAME", "Path." + meth, [recv, args[0]], n, st, frame, out)
             if meth == "touch":
-                self.raise_star(st, out)
-                return V(NONE), self.emit("CREATE", "Path.touch", [recv], n, st, frame, extra={"mode": "w"})
+                return V(NONE), self._mut_prim("CREATE", "Path.touch", [recv], n, st, frame, out, extra={"mode": "w"})
         results = set()
         cur = None
         any_normal = False
@@ -1268,8 +1273,7 @@ class ExprMixin:
                     return a
                 return frozenset(("sibling", r, shape(a)) for a in args[0]), st
             if meth == "mkdir":
-                self.raise_star(st, out)
-                return V(NONE), self.emit("MKDIR", "Path.mkdir", [V(r)], n, st, frame)
+                return V(NONE), self._mut_prim("MKDIR", "Path.mkdir", [V(r)], n, st, frame, out)
             if meth in ("exists", "is_file", "is_dir"):
                 st = self.emit("PROBE", "Path." + meth, [V(r)], n, st, frame)
                 return V(("probe", meth, V(r), st.muts)), st
@@ -1284,16 +1288,13 @@ class ExprMixin:
                 st = self.emit("PROBE", "os.stat", [V(r)], n, st, frame)
                 return V(("probe", "stat", V(r), st.muts)), st
             if meth in ("unlink",):
-                self.raise_star(st, out)
-                return V(NONE), self.emit("REMOVE", "Path.unlink", [V(r)], n, st, frame)
+                return V(NONE), self._mut_prim("REMOVE", "Path.unlink", [V(r)], n, st, frame, out)
             if meth in ("rename", "replace"):
-                self.raise_star(st, out)
-                return V(NONE), self.emit("RENAME", "Path." + meth, [V(r), args[0]], n, st, frame)
+                return V(NONE), self._mut_prim("RENAME", "Path." + meth, [V(r), args[0]], n, st, frame, out)
             if meth == "open":
                 return self.do_open([V(r)] + args, kw, n, st, frame, out)
             if meth in ("write_text", "write_bytes", "touch"):
-                self.raise_star(st, out)
-                return V(NONE), self.emit("CREATE", "Path." + meth, [V(r)], n, st, frame, extra={"mode": "w"})
+                return V(NONE), self._mut_prim("CREATE", "Path." + meth, [V(r)], n, st, frame, out, extra={"mode": "w"})
             if meth in ("read_text", "read_bytes"):
                 self.raise_star(st, out)
                 return V(("content", r)), self.emit("READ", "Path." + meth, [V(r)], n, st, frame, extra={"mode": "r"})
